@@ -32,15 +32,19 @@ DTYPE_INFO = {"u8": ("u", 1), "i16": ("i", 2), "i32": ("i", 4), "f16": ("f", 2),
 
 
 class FPix(object):
-    """A floating-point element: NaN flag + real value (meaningful when not NaN)."""
+    """A floating-point element: NaN flag, infinity flag, real value (meaningful when neither flag is set).
 
-    __slots__ = ("nan", "val")
+    ``inf`` says that the element is +inf or -inf: a DEFINED value for toasty (only NaN is "undefined"), which
+    ``np.isfinite`` nevertheless rejects.  Arithmetic and ordering on infinite elements are not modelled (the result's
+    flag is left open); masks, copies and equality are."""
 
-    def __init__(self, nan, val):
-        self.nan, self.val = nan, val
+    __slots__ = ("nan", "val", "inf")
+
+    def __init__(self, nan, val, inf=False):
+        self.nan, self.val, self.inf = nan, val, inf
 
     def __repr__(self):
-        return "FPix(nan=%s, %s)" % (self.nan, self.val)
+        return "FPix(nan=%s, inf=%s, %s)" % (self.nan, self.inf, self.val)
 
 
 NAN = FPix(True, z3.RealVal(0))
@@ -56,8 +60,9 @@ def same_elem(a, b):
     """Element equality as 'same stored value' (NaN equals NaN)."""
     if isinstance(a, FPix) or isinstance(b, FPix):
         a, b = to_fpix(a), to_fpix(b)
+        same_inf = ops.disj([ops.conj([a.inf, b.inf]), ops.conj([ops.negate(a.inf), ops.negate(b.inf)])])
         return ops.disj([ops.conj([a.nan, b.nan]),
-                         ops.conj([ops.negate(a.nan), ops.negate(b.nan), simp(z3num(a.val) == z3num(b.val))])])
+                         ops.conj([ops.negate(a.nan), ops.negate(b.nan), same_inf, simp(z3num(a.val) == z3num(b.val))])])
     if isinstance(a, bool) or isinstance(b, bool) or (is_z3(a) and z3.is_bool(a)):
         return simp(z3bool(a) == z3bool(b))
     return simp(z3num(a) == z3num(b))
@@ -75,7 +80,7 @@ def elem_ite(c, a, b):
         return a if c else b
     if isinstance(a, FPix) or isinstance(b, FPix):
         a, b = to_fpix(a), to_fpix(b)
-        return FPix(ops.ite(c, a.nan, b.nan), ops.ite(c, a.val, b.val))
+        return FPix(ops.ite(c, a.nan, b.nan), ops.ite(c, a.val, b.val), ops.ite(c, a.inf, b.inf))
     return ops.ite(c, a, b)
 
 
@@ -176,7 +181,13 @@ def fresh_array(shape, dtype, label, interp=None):
     if dtype in FLOAT_DTYPES:
         fv = z3.Function(name + ".val", *([z3.IntSort()] * nd + [z3.RealSort()]))
         fn_ = z3.Function(name + ".nan", *([z3.IntSort()] * nd + [z3.BoolSort()]))
-        return NdArr(shape, dtype, lambda idx: FPix(fn_(*[z3num(i) for i in idx]), fv(*[z3num(i) for i in idx])), label)
+        fi_ = z3.Function(name + ".inf", *([z3.IntSort()] * nd + [z3.BoolSort()]))
+
+        def elem(idx):
+            ii = [z3num(i) for i in idx]
+            # an element is NaN, infinite, or finite: never NaN and infinite at once
+            return FPix(fn_(*ii), fv(*ii), z3.And(fi_(*ii), z3.Not(fn_(*ii))))
+        return NdArr(shape, dtype, elem, label)
     if dtype == "bool":
         f = z3.Function(name, *([z3.IntSort()] * nd + [z3.BoolSort()]))
         return NdArr(shape, dtype, lambda idx: f(*[z3num(i) for i in idx]), label)
@@ -639,6 +650,18 @@ def _np_isnan(interp, args, kwargs):
     return is_nan(a)
 
 
+def _np_isfinite(interp, args, kwargs):
+    a = args[0]
+
+    def fin(e):
+        if isinstance(e, FPix):
+            return ops.conj([ops.negate(e.nan), ops.negate(e.inf)])
+        return True
+    if isinstance(a, NdArr):
+        return elementwise(a.shape, "bool", lambda idx: fin(a.at(idx)) if a.dtype in FLOAT_DTYPES else True, "isfinite")
+    return fin(a)
+
+
 def _np_all_any(kind):
     def fn(interp, args, kwargs):
         a = args[0]
@@ -706,7 +729,12 @@ def _np_nanmean(interp, args, kwargs):
         tot = z3.Sum([z3.If(z3bool(x.nan) if not isinstance(x.nan, bool) else z3.BoolVal(x.nan), z3.RealVal(0), x.val) for x in four])
         allnan = ops.conj([x.nan for x in four])
         val = z3.If(cnt == 1, tot, z3.If(cnt == 2, tot / 2, z3.If(cnt == 3, tot / 3, tot / 4)))
-        return FPix(allnan, val)
+        anyinf = ops.disj([x.inf for x in four])
+        if anyinf is False:
+            return FPix(allnan, val)
+        # a mean over infinite values is infinite or NaN: left open (not modelled), exact when no input is infinite
+        open_nan, open_inf = z3.Bool(fresh_name("mean_nan")), z3.Bool(fresh_name("mean_inf"))
+        return FPix(ops.ite(anyinf, open_nan, allnan), val, ops.ite(anyinf, z3.And(open_inf, z3.Not(open_nan)), False))
 
     return NdArr(out_shape, "f64", mean, "nanmean")
 
@@ -796,7 +824,11 @@ def _np_radians(interp, args, kwargs):
 def arith_elem(interp, op, a, b):
     a, b = to_fpix(a), to_fpix(b)
     val = ops.binop(interp, op, a.val, b.val)
-    return FPix(ops.disj([a.nan, b.nan]), val)
+    anyinf = ops.disj([a.inf, b.inf])
+    if anyinf is False:
+        return FPix(ops.disj([a.nan, b.nan]), val)
+    open_nan, open_inf = z3.Bool(fresh_name("arith_nan")), z3.Bool(fresh_name("arith_inf"))
+    return FPix(ops.ite(anyinf, open_nan, ops.disj([a.nan, b.nan])), val, ops.ite(anyinf, z3.And(open_inf, z3.Not(open_nan)), False))
 
 
 NP_FUNCS = {
@@ -811,6 +843,7 @@ NP_FUNCS = {
     "np.full_like": _np_const_like(None),
     "np.empty_like": _np_const_like("empty"),
     "np.isnan": _np_isnan,
+    "np.isfinite": _np_isfinite,
     "np.all": _np_all_any("all"),
     "np.any": _np_all_any("any"),
     "np.broadcast_to": _np_broadcast_to,
